@@ -1,6 +1,6 @@
 SPECIFICATION Spec
 CONSTANTS
-  NChans = 2
+  NChans = 1
   NKeys = 1
   NPays = 1
   MaxItems = 4
